@@ -338,6 +338,8 @@ def run(chk):
                              "system side behind the sweep and built from the current state, stored optimum updated once per root, direction switched at the end", 24)
     from .chain_rules import single_sweep_rule
     single_sweep_rule(chk, src, rule_sites="sweep-driver")
+    chk.rule("eigen-selection", "local solvers (abstract runs with the library solvers as recorders): lowest algebraic eigenvalue, with its own eigenvector, of the effective Hamiltonian handed in", 6)
+    eigen_selection_rule(chk, src, "eigen-selection")
     chk.rule("arg-order", "kernels are called with same-named arguments in parameter order", 4)
     cases = K.hop_expr_cases(src) + K.ham_direct_cases(src) + K.hdiag_cases(src)
     add_cases(chk, "heff-network", cases, "effective Hamiltonian")
@@ -381,3 +383,97 @@ META = {
             "interpreter cannot follow stops the analysis (exit 2).",
     "design_ref": "DESIGN.md 3.2, 4 (C08)",
 }
+
+
+def eigen_selection_rule(chk, src, rule):
+    """which eigenpair the local solvers return: abstract runs with recorder stand-ins for the library solvers.  Tree eigh_iterative, every algorithm: the operator handed to the
+    solver applies the effective Hamiltonian it was given, one root is asked for, sparse solvers are asked for the algebraically smallest eigenvalue (`SA`: `SM` would pick the
+    one closest to zero - an interior state whenever the spectrum has negative values), the dense fallback takes entry 0 of the ascending spectrum and the matching column; value
+    and vector returned belong to the same eigenpair.  Chain eigh_direct: the first nroots of the ascending spectrum of (H x inverse) with their own columns; chain
+    eigh_iterative (primme): smallest algebraic, min(nroots, dimension) roots."""
+    from ..syminterp import SymInterp, Sym, Blob, OpenSym, SymRaise
+    TGS_ = "renormalizer/tn/gs.py"
+    fi = src.func(TGS_, "eigh_iterative")
+
+    class Evals(Sym):
+        def __getitem__(self, k):
+            return ("eval", k if not isinstance(k, slice) else ("slice", k.start, k.stop, k.step))
+
+    class Evecs(Sym):
+        shape = (7, 7)
+
+        def __getitem__(self, k):
+            return ("evec", k[1] if isinstance(k, tuple) and len(k) == 2 and k[0] == slice(None) else ("?", repr(k)))
+    for algo in ("davidson", "primme", "arpack", "direct"):
+        rec = []
+
+        def davidson(aop, x0, precond, **kw):
+            rec.append(("davidson", aop, kw.get("nroots", 1)))
+            return ("eval", 0), ("evec", 0)
+
+        def linop(shape, matvec=None, matmat=None, **kw):
+            return Sym("LinearOperator", matvec=matvec, matmat=matmat, shape=shape)
+
+        def eigsh(A, k=6, which="LM", **kw):
+            rec.append(("eigsh", getattr(A, "matvec", None), k, which))
+            return Evals("w"), Evecs("v")
+
+        class Unit(Sym):
+            def __setitem__(self, k, v):
+                self.k = k
+        hop = lambda x: ("hop", getattr(x, "k", x))
+        sparse = Sym("sparse", linalg=Sym("linalg", LinearOperator=linop, eigsh=eigsh), diags=lambda *a, **k: Blob("diags"))
+
+        def np_array(x, *a, **k):
+            return Sym("array", rows=list(x), reshape=lambda *a_, **k_: Blob("v0"), conj=lambda: Sym("array", T="same")) if isinstance(x, list) else Blob("v0")
+        npx = OpenSym("np", make=lambda t: Blob(t), zeros=lambda n_: Unit("unit"), array=np_array, allclose=lambda *a, **k: True,
+                      linalg=Sym("linalg", eigh=lambda a: rec.append(("eigh", [r for r in getattr(a, "rows", [])])) or (Evals("w"), Evecs("v"))))
+        it = SymInterp(src, None, {"np": npx, "scipy": Sym("scipy", sparse=sparse), "davidson": davidson, "primme": Sym("primme", eigsh=eigsh), "asnumpy": lambda x: x, "logger": Blob("logger"),
+                                   "len": lambda x: 3, "IMPORT_PRIMME_EXCEPTION": "exc"})
+        it.max_depth = 6
+        probs = []
+        try:
+            res = it.call_function(fi, [hop, Blob("hdiag"), Blob("cguess"), algo])
+        except SymRaise as e:
+            res = None
+            probs.append(f"raises {e}")
+        if res is not None:
+            # a sparse solver asked for one root returns a one-column matrix: the column itself or the whole matrix are the same vector for the caller (np.place flattens)
+            one_col = algo in ("primme", "arpack") and isinstance(res, tuple) and len(res) == 2 and isinstance(res[1], Evecs)
+            if res != (("eval", 0), ("evec", 0)) and not (one_col and res[0] == ("eval", 0)):
+                probs.append(f"returns {res!r}; expected the lowest eigenvalue and its own eigenvector")
+            if algo == "davidson":
+                if len(rec) != 1 or rec[0][0] != "davidson" or rec[0][1] is not hop or rec[0][2] != 1:
+                    probs.append(f"solver called as {[(r[0], r[2]) for r in rec]}; expected davidson on the effective Hamiltonian, one root")
+            elif algo in ("primme", "arpack"):
+                if len(rec) != 1 or rec[0][0] != "eigsh" or rec[0][1] is not hop or rec[0][2] != 1 or rec[0][3] != "SA":
+                    probs.append(f"sparse solver called with {[(r[2], r[3]) for r in rec if r[0] == 'eigsh']} (operator is the effective Hamiltonian: {bool(rec) and rec[0][1] is hop}); expected k=1, which='SA' (smallest algebraic)")
+            else:
+                if len(rec) != 1 or rec[0][0] != "eigh" or rec[0][1] != [("hop", i) for i in range(3)]:
+                    probs.append(f"dense matrix built from {rec}; expected the images of the unit vectors in order")
+        chk.ob(rule, f"tree eigh_iterative[{algo}]: lowest eigenpair of the effective Hamiltonian", not probs, fi.where, probs[:2] or "lowest algebraic eigenvalue with its vector", "lowest algebraic eigenvalue with its vector",
+               line=fi.node.lineno, detail="the local ground-state problem must return the algebraically smallest eigenvalue: 'smallest magnitude' is an interior eigenvalue whenever the spectrum has negative "
+                                           "values, and the sweep then converges to an excited state without any error: " + (probs[0] if probs else ""))
+    # ---- chain, dense solver
+    fd = src.func(GS, "eigh_direct")
+    for nroots in (1, 3):
+        rec = []
+        cfg = Sym("optimize_config", inverse=Sym("inverse"), nroots=nroots, method="1site")
+        mps = Sym("mps", optimize_config=cfg)
+
+        class Ham(Sym):
+            def __mul__(self, o):
+                rec.append(("scaled by", getattr(o, "_name", o)))
+                return self
+
+            __rmul__ = __mul__
+        it = SymInterp(src, None, {"np": OpenSym("np", make=lambda t: Blob(t)), "scipy": Sym("scipy", linalg=Sym("linalg", eigh=lambda a, **k: rec.append(("eigh", a)) or (Evals("w"), Evecs("v")))),
+                                   "get_ham_direct": lambda *a: Ham("ham"), "asnumpy": lambda x: x, "sign_fix": lambda c, n_: ("sign_fix", c, n_), "isinstance": lambda x, t: False, "logger": Blob("logger")})
+        res = it.call_function(fd, [mps, Blob("mask"), Blob("L"), Blob("R"), Blob("cmo"), None])
+        if nroots == 1:
+            want = (("eval", 0), ("sign_fix", ("evec", 0), 1))
+        else:
+            want = (("eval", ("slice", None, 3, None)), ("sign_fix", [("evec", 0), ("evec", 1), ("evec", 2)], 3))
+        ok = res == want and ("scaled by", "inverse") in rec
+        chk.ob(rule, f"chain eigh_direct[{nroots} root(s)]: first roots of the ascending spectrum of H x inverse", ok, fd.where, repr(res)[:160], repr(want)[:160], line=fd.node.lineno,
+               detail="the direct local solver must return the lowest nroots eigenvalues of (H x inverse) and exactly their eigenvectors")
